@@ -34,6 +34,8 @@ def argform(c, form):
     for k in ("rows", "cols"):
         if k in d:
             d[k] = [f(x) for x in d[k]]
+    if "ravel" in d:      # a flag is a flag in any truthy / falsy spelling: NumPy booleans, 0 / 1
+        d["ravel"] = {"npint64": np.bool_(d["ravel"]), "npint32": int(d["ravel"]), "npuint8": np.uint8(d["ravel"])}.get(form, d["ravel"])
     return d
 
 
@@ -161,7 +163,7 @@ def run(chk, opts):
         # (thorough: one rotating form per configuration -- all four on every one of ~800 k configurations exhausts memory)
         forms = sorted(INTFORMS) if (full and not thorough) else [sorted(INTFORMS)[k % len(INTFORMS)]]
         cases.append({"id": "C01/%06d" % k, "cfg": c, "dtypes": sorted(set(dts)), "layouts": full or (high and k % 3 == 0), "intforms": forms,
-                      "bool": full and int(np.prod(c["shape"])) <= 36})
+                      "bool": full and 0 < int(np.prod(c["shape"])) <= 36})
     chk.add_cases(cases)
     chk.rule = ("all %d configurations of TensorIndex.AllConfigs (exported from TLC's design run: every shape with order<=%s, every op/mode/"
                 "skip/ravel/row-column ordering, plus the all-twos tensors of order 9+), each on the label tensor in several dtypes, layouts and "
